@@ -5,6 +5,7 @@ cd /verif
 out=/verif/notes/falsealarm-latest.txt
 : > $out
 for base in "$@"; do
+  base=$(readlink -f $base)
   for d in $base/REFACTOR*/ $base/; do [ -f $d/patch.diff ] || continue
     n=$(basename $base)-$(basename $d)
     cd /repo
